@@ -109,3 +109,26 @@ def credProtectOf (b : Nat) : Option Nat :=
   if b = 1 then some 0 else if b = 2 then some 1 else if b = 3 then some 2 else none
 
 end Spec
+
+namespace Spec
+
+/-- CTAP2 dispatch: request ↦ (handler, receives the request parameters, response kind, can fail) -/
+def dispatch2 : List (String × String × Bool × String × Bool) := [
+  ("GetInfo", "get_info", false, "GetInfo", false),
+  ("MakeCredential", "make_credential", true, "MakeCredential", true),
+  ("GetAssertion", "get_assertion", true, "GetAssertion", true),
+  ("GetNextAssertion", "get_next_assertion", false, "GetNextAssertion", true),
+  ("Reset", "reset", false, "Reset", true),
+  ("ClientPin", "client_pin", true, "ClientPin", true),
+  ("CredentialManagement", "credential_management", true, "CredentialManagement", true),
+  ("Selection", "selection", false, "Selection", true),
+  ("LargeBlobs", "large_blobs", true, "LargeBlobs", true),
+  ("Vendor", "vendor", true, "Vendor", true)]
+
+/-- CTAP1 dispatch -/
+def dispatch1 : List (String × String × Bool × String × Bool) := [
+  ("Register", "register", true, "Register", true),
+  ("Authenticate", "authenticate", true, "Authenticate", true),
+  ("Version", "version", false, "Version", false)]
+
+end Spec
